@@ -74,6 +74,7 @@ class VLoop(asyncio.AbstractEventLoop):
         self.endpoints = []
         self.steps = 0
         self.tasks = []
+        self._seen_done = set()
 
     # ---- clock / flags
     def time(self):
@@ -163,7 +164,37 @@ class VLoop(asyncio.AbstractEventLoop):
                 continue
             self.steps += 1
             h._run()
+            self._reraise_control()
         return True
+
+    def _reraise_control(self):
+        """asyncio stores any BaseException raised inside a task; the engine's control-flow
+        exceptions (path abort / inconclusive) must reach the explorer instead."""
+        from .core import PathAbort, Inconclusive
+        for t in self.tasks:
+            if t in self._seen_done or not t.done():
+                continue
+            self._seen_done.add(t)
+            if t.cancelled():
+                continue
+            e = t._exception if hasattr(t, "_exception") else None
+            if isinstance(e, (PathAbort, Inconclusive)):
+                t.exception()
+                raise e
+
+    def step(self):
+        """one scheduling round: every ready handle runs once (one atomic segment per task)"""
+        old = events._get_running_loop()
+        events._set_running_loop(self)
+        self._running = True
+        try:
+            r = self._run_once()          # runs what is ready, or advances the clock to the next timer(s)
+            while self._ready:            # ... and lets the tasks those timers woke run their segment
+                self._run_once()
+            return r
+        finally:
+            self._running = False
+            events._set_running_loop(old)
 
     def run_until(self, done, max_time=None, max_steps=200000):
         """Run until done() is true, nothing is left to do, or virtual time passes max_time."""
